@@ -124,6 +124,29 @@ func init() {
 						w.Write(semMismatch{Schema: rr.Text, Abstract: c.Schema, Env: c.Env, Opt: c.Opt, Doc: alt[di], DocAbs: docs[di], Want: ws, Got: g2, What: "verdict-respelled"})
 					}
 				}
+				// the same document object after the caller has looked at its first lexemes: Validate reads the whole text whatever the
+				// position the document was left at
+				if (ci+di)%3 == 0 && got.OK == (want == 1) {
+					atomic.AddInt64(&evals, 1)
+					d := jdoc.New("doc", docs[di].JSON())
+					k := (ci+di)%5 + 2
+					guard(func() error {
+						for j := 0; j < k; j++ {
+							if _, err := d.NextLexeme(); err != nil {
+								break
+							}
+						}
+						return nil
+					})
+					if g2 := guard(func() error { return s.Validate(d) }); g2.Kind == "panic" || g2.Kind == "foreign" || g2.OK != (want == 1) {
+						atomic.AddInt64(&mism, 1)
+						ws := "reject"
+						if want == 1 {
+							ws = "accept"
+						}
+						w.Write(semMismatch{Schema: rr.Text, Abstract: c.Schema, Env: c.Env, Opt: c.Opt, Doc: docs[di].JSON(), DocAbs: docs[di], Want: ws, Got: g2, What: fmt.Sprintf("verdict-after-%d-lexemes-read", k)})
+					}
+				}
 				if got.Kind == "panic" || got.Kind == "foreign" || got.OK != (want == 1) {
 					// once more on a freshly built schema object
 					s2, _, err2 := buildSchema(c.Schema, c.Env, c.Opt, *mesh)
